@@ -246,7 +246,7 @@ def h(sym, who, scenario, N, A, D_, Tmax, umax, idle=None):
 def obligations(tier):
     quick = tier == "quick"
     A, D_ = 1, 1
-    Tmax = 4 if quick else 6
+    Tmax = 4 if quick else 5
     umax = 1 if quick else 2
     N = umax + Tmax + A + 6
     out = []
